@@ -127,6 +127,19 @@ pub fn gen_case(r: &mut Rng) -> GCase {
             }
         }
     }
+    // one case in eight: a reference buried under many levels of direct arrays and dictionaries inside one object
+    // (the parser accepts 256 levels); renumbering has to reach it like any other reference
+    if r.chance(1, 8) {
+        let t = *r.pick(&pool);
+        let depth = *r.pick(&[20usize, 60, 64, 65, 100, 128, 200, 250]);
+        let mut v = RObj::Ref(t.0, t.1);
+        for lvl in 0..depth {
+            v = if lvl % 3 == 1 { RObj::Dict(vec![(k("D"), v), (k("N"), RObj::Int(lvl as i64))]) } else { RObj::Array(vec![RObj::Int(lvl as i64), v]) };
+        }
+        if let Some(RObj::Dict(c)) = d.objects.get_mut(&cat) {
+            c.push((k("Deep"), v));
+        }
+    }
     d.trailer = vec![(k("Root"), rref(cat))];
     if !extra_ids.is_empty() && r.bool() {
         d.trailer.push((k("Info"), rref(*r.pick(&extra_ids))));
@@ -369,7 +382,7 @@ pub fn run(cfg: &RunCfg) -> (PropMeta, ShardOut, Map<String, Value>) {
     });
     let meta = PropMeta {
         level: "exploration",
-        rule: "random reference graphs: page trees (0..11 pages, one or two levels) whose page ids are shuffled against page order, sparse numbers, optional non-zero generations, extra objects of every kind with shared / cyclic / dangling / wrong-generation references, references from the trailer, unreachable objects, bookmarks (incl. zero-page) ; start in {1, 2, an existing number, mid-range, 1,000,000}; Document::max_id out of step with the objects (behind or ahead) in one case in three; one case in four renumbered a second time with the same start. Oracle: dense numbering from start, max_id, lock-step renaming walk from the trailers (consistent, injective, equal referents, dangling stays dangling), page order, bookmark targets. distinct = distinct (document, start).".into(),
+        rule: "random reference graphs: page trees (0..11 pages, one or two levels) whose page ids are shuffled against page order, sparse numbers, optional non-zero generations, extra objects of every kind with shared / cyclic / dangling / wrong-generation references, references from the trailer, unreachable objects, now and then a reference under 20..250 levels of direct containers, bookmarks (incl. zero-page) ; start in {1, 2, an existing number, mid-range, 1,000,000}; Document::max_id out of step with the objects (behind or ahead) in one case in three; one case in four renumbered a second time with the same start. Oracle: dense numbering from start, max_id, lock-step renaming walk from the trailers (consistent, injective, equal referents, dangling stays dangling), page order, bookmark targets. distinct = distinct (document, start).".into(),
         assumptions: vec!["one generation per object number; only objects reachable from the trailer are compared (the statement's scope)".into()],
         exhaustive: false,
         min_distinct: 1000,
